@@ -7,10 +7,17 @@ from . import extract
 
 def main():
     for m in pkgutil.iter_modules(extract.__path__):
-        mod = importlib.import_module(f"harness.extract.{m.name}")
+        try:
+            mod = importlib.import_module(f"harness.extract.{m.name}")
+        except Exception as e:
+            print("import failed", m.name, type(e).__name__, e)
+            continue
         if hasattr(mod, "generate"):
-            mod.generate()
-            print("generated", m.name)
+            try:
+                mod.generate()
+                print("generated", m.name)
+            except Exception as e:  # a translator under construction must not break the others
+                print("generate failed", m.name, type(e).__name__, e)
 
 
 if __name__ == "__main__":
